@@ -530,9 +530,21 @@ func ruleNumberSign(c *Ctx) {
 			if fn, ok := calleeOf(info, call).(*types.Func); ok && fn.Pkg() == pk.Types {
 				if d := c.P.declOf[fn]; d != nil && d != fd {
 					for _, a := range call.Args {
-						if t := info.TypeOf(a); t != nil && types.TypeString(t, nil) == "string" {
-							visit(d, depth+1)
+						if t := info.TypeOf(a); t != nil {
+							switch types.TypeString(t.Underlying(), nil) {
+							case "string", "byte", "uint8", "rune", "int32", "[]byte":
+								visit(d, depth+1)
+							}
 						}
+					}
+				}
+			}
+			// a module predicate handed to a library scanner (strings.ContainsFunc, IndexFunc, ...) is applied to
+			// the characters of the string
+			for _, a := range call.Args {
+				if fn, ok := info.Uses[identOf(a)].(*types.Func); ok && fn.Pkg() == pk.Types {
+					if d := c.P.declOf[fn]; d != nil && d != fd {
+						visit(d, depth+1)
 					}
 				}
 			}
